@@ -305,7 +305,7 @@ SITE_ALLOW = {
 }
 
 MANIFEST = {
-    "technique": "static analysis: per-variant arm rules on HIR, MIR dominance of successor selection by the evaluated guard, error-discipline census, index/position provenance, panic reachability",
+    "technique": "static analysis: per-variant rules on MIR def-use terms (regions dominated by each variant of the operation switch), MIR dominance of successor selection by the evaluated guard, error-discipline census, index/position provenance, panic reachability",
     "text": "Decides on every run the structural clauses of the executor property: each IL operation is applied as the "
             "operational semantics prescribes (operand order, widths from the destination, nothing else touched), the "
             "error cases are errors (undefined scalar, unmapped load, intrinsic, no guard), a successor among several is "
